@@ -121,6 +121,8 @@ type Sim struct {
 	rand      *Rand
 	randHook  RandHook
 	RandReads int
+	// RandLog, when non-nil, records every chunk handed out by the simulated crypto/rand.
+	RandLog map[string]int
 	skew      map[int]time.Duration
 
 	// Ext is free for the harness.
@@ -705,5 +707,8 @@ func (s *Sim) RandRead(b []byte) (int, error) {
 		s.rand = NewRand(1)
 	}
 	s.rand.Fill(b)
+	if s.RandLog != nil {
+		s.RandLog[string(b)]++
+	}
 	return len(b), nil
 }
